@@ -146,7 +146,7 @@ func c15(c *core.Ctx) {
 			}
 		})
 		c.MarkExhaustive("option product x close variants")
-		depth := int(c.N(4, 5))
+		depth := int(c.N(4, 6))
 		prefixes := historyPrefixes(3)
 		simOpts := []rigOpts{{}, {noConnClose: true}, {fallback: true, noRetransmit: true}, {agentCloseErr: errInjectedAgentClose}, {connCloseErr: errInjectedConnClose, fallback: true}, {noConnClose: true, defaultAgent: true}}
 		c.Section("histories", int64(len(prefixes)), func(i int64, _ *gen.Rand) {
@@ -183,7 +183,7 @@ func c15(c *core.Ctx) {
 	defer func() {
 		c.Count("goroutine_scans_skipped_because_an_abandoned_client_was_alive", atomic.LoadInt64(&leakScansSkipped))
 	}()
-	clientStress(c, c15Oracles, c.N(200, 8000), func(i int64, r *gen.Rand) stressCfg {
+	clientStress(c, c15Oracles, c.N(200, 30000), func(i int64, r *gen.Rand) stressCfg {
 		return stressCfg{
 			goroutines: 2 + r.Intn(10), opsPerG: 2 + r.Intn(8), closers: 1 + r.Intn(4),
 			opts: rigOpts{fallback: i%2 == 0, noRetransmit: i%4 == 0, noConnClose: i%3 == 0}, dupIDs: i%5 == 0,
